@@ -291,7 +291,7 @@ fn gen_c07(rng: &mut Rng, tier: &str, emit: Emit) {
         }
     }
     // append / prepend / insert on the boundary lattice of both lengths, every receiver type, every kind of argument
-    edit_lattice(rng, TYPES, &["F8x3", "F64x2", "F128x2", "D", "A"], emit);
+    edit_lattice(rng, TYPES, &["F8x3", "F64x2", "F128x3", "D", "A"], emit);
     // extend / collect with iterators whose size_hint is exact, absent, a lower bound only, or an upper bound only
     for ty in TYPES {
         for hint in ["x", "n", "l", "f"] {
@@ -651,7 +651,7 @@ fn edit_lattice(rng: &mut Rng, recv: &[Ty], args: &[&str], emit: Emit) {
 }
 
 fn gen_c18(rng: &mut Rng, tier: &str, emit: Emit) {
-    edit_lattice(rng, &[ty_of("D"), ty_of("A")], &["F8x3", "F16x5", "F64x2", "F64x5", "F128x2", "D", "A"], emit);
+    edit_lattice(rng, &[ty_of("D"), ty_of("A")], &["F8x3", "F16x5", "F64x2", "F64x5", "F128x3", "D", "A"], emit);
     for ty in [ty_of("D"), ty_of("A")] {
         for c in [0usize, 1, 63, 64, 65, 127, 128, 129, 191, 192, 193, 1000] {
             emit(line("with_capacity", &[ty.tag, &s(c)]));
